@@ -96,7 +96,7 @@ def _gen(g):
         case["bufs"] = None
         if g.chance(40):
             case["cancelled_first"] = g.chance(70)
-            case["pieces"] = g.int(2, 3)
+            case["pieces"] = g.choice([2, 3, 3, 150])          # 150: far more separate arrivals than any queue bound
             case["max"]["b"] = [g.choice([1000, 65536, 1 << 20])]      # chunks are taken whole
             case["doomed_receive"] = g.chance(60)
     elif scenario == "close":
@@ -381,7 +381,7 @@ async def scenario_pingpong(case, out, stats, w, r):
                 k = step if j < pieces - 1 else n - sent
                 await w.send(pat(off + sent, k))
                 sent += k
-                await anyio.sleep(0.01)
+                await anyio.sleep(0.01 if pieces <= 3 else 0.001)
         else:
             await w.send(pat(off, n))
         if case.get("doomed_receive"):
